@@ -251,10 +251,11 @@ def body_stmt(draw, nm, opts, late, branch_targets, depth=0, in_repeat=False):
     # a program gets a budget of them, after which only even-sized statements are drawn
     pad = opts.setdefault("_pad", [8])
     if k in ("byte", "str", "blk", "align"):
-        if pad[0] <= 0:
+        cost = 4 ** depth if in_repeat else 1     # a repeat body is executed up to 4 times per level
+        if pad[0] < cost:
             k = "insn"
         else:
-            pad[0] -= 1
+            pad[0] -= cost
     if k == "insn":
         return [draw(insn_stmt(nm, branch_targets if not in_repeat else (), allow_dot))]
     if k == "word":
